@@ -185,6 +185,14 @@ def run(rep):
         for plan in ([], [4096] * (len(data) // 4096 + 2), [65536] * (len(data) // 65536 + 2)):
             rcases.append(readcore.read_case(data, source=(0,), rplan=plan, consume=(0, 4096, 0)))
             meta.append((name, "crafted", plan[0] if plan else 0, (0, 4096, 0)))
+    # every reference archive of the suite once, intact, through 512-byte callback blocks (one header block per
+    # read: pointers into the previous block die at once) - the mutation sweep above only samples the corpus in the quick tier
+    seen_ref = set(n for n, _ in arcs)
+    for name, data in readcore.reference_archives(150000 if quick else 4000000):
+        if name in seen_ref and not quick:
+            continue
+        rcases.append(readcore.read_case(data, source=(0,), rplan=[512] * (len(data) // 512 + 2), consume=(0, 4096, 0)))
+        meta.append((name, "intact", 512, (0, 4096, 0)))
     for name, data in multiframe_inputs(mk, arcs):
         for plan in ([], [10240] * (len(data) // 10240 + 2)):
             rcases.append(readcore.read_case(data, source=(0,), rplan=plan, consume=(0, 4096, 0)))
